@@ -24,19 +24,25 @@
        once more: elements left over are MismatchedTypes under Throw and passed over under Skip.  An error raised
        inside a component propagates (known finding M02, fixed).  std::pair is a class with the members "key" and
        "value" (SClass);
-     std::map<K, V> (SerializeMapImpl, MapLoadMode::Clean) with K = std::string or an integer type ->
-       OpenObjectScope, clear(), VisitKeys; in the callback: ConvertByPolicy(archive key -> K),
-       try_emplace(hint, key), then the keyed load of the mapped value under the ARCHIVE key; a mapped
-       value that is not loaded stays value-initialised; a key that does not fit K is an Overflow error
-       or, under the Skip policy, passed over.  The result is ordered by std::less<K>.
-       Modelled for archive keys of the class of K (string keys for std::string, integer keys for the
-       integer types) that convert to pairwise different K: see `modelled`; the conversions between the
-       classes (text <-> number, float / timestamp keys) and the load into an element that try_emplace
-       found already present are NOT modelled.
-   load_tr is the association-list level: it consumes the scopes' ANSWERS (typed_spec of the value
-   found, lookup of a member key) and returns them as tokens together with the loaded value.
-   Not modelled here: MapLoadMode::OnlyExistKeys / UpdateKeys (load_tr has no initial target content),
-   validation.  On loads that end in an error the tokens are not claimed (only the error).  Definitions only. *)
+     std::map<K, V> (SerializeMapImpl) with K = std::string or an integer type -> OpenObjectScope, clear() in
+       MapLoadMode::Clean, VisitKeys; in the callback: ConvertByPolicy(archive key -> K), then
+         Clean:         try_emplace(hint, key), the keyed load of the mapped value under the ARCHIVE key;
+         OnlyExistKeys: find(key); the keyed load into the element found, nothing for a key that is not there;
+         UpdateKeys:    the keyed load into cont[key] (a value-initialised element is inserted for a new key);
+       a mapped value that is not loaded stays as it was (value-initialised if new); a key that does not fit K is an
+       Overflow error or, under the Skip policy, passed over.  The result is ordered by std::less<K>.
+       Modelled for archive keys of the class of K (string keys for std::string, integer keys for the integer types)
+       that convert to pairwise different K: see `modelled`; the conversions between the classes (text <-> number,
+       float / timestamp keys) and two archive keys that convert to the same K are NOT modelled.
+   THE TARGET HAS A CONTENT when the load starts: load_tr s i v loads the document value v into a target of
+   shape s that holds i.  What is not loaded keeps its content: the members of a class, the elements of a
+   fixed-size array, the components of a tuple, the mapped values of a map (OnlyExistKeys / UpdateKeys); a sequence
+   container is resized to the announced count and an element that is not loaded is RESET to value_type(); a target
+   whose scope cannot be opened (nil, a value of another kind under Skip) is left as it is (LNot).
+   load_tr is the association-list level: it consumes the scopes' ANSWERS (typed_spec of the value found, lookup of a
+   member key) and returns them as tokens together with the loaded value.
+   Not modelled here: validation.  On loads that end in an error the tokens are not claimed (only the error).
+   Definitions only. *)
 From BS Require Import Base MpSpec MpModel MpSaveModel MpScopeSpec.
 Local Open Scope N_scope.
 
@@ -79,6 +85,8 @@ Fixpoint pairs_sorted (l : list (tv * tv)) : bool :=
   | (k, _) :: t => (match t with [] => true | (k', _) :: _ => tkey_ltb k k' end) && pairs_sorted t
   end.
 
+Inductive mmode := MClean | MOnlyExist | MUpdate.   (* MapLoadMode *)
+
 Inductive shape :=
 | SNil                                   (* std::nullptr_t *)
 | SBool
@@ -89,7 +97,7 @@ Inductive shape :=
 | SBytes                                 (* std::vector<unsigned char> *)
 | SVec (e : shape)                       (* sequence container of e *)
 | SClass (ms : list (list N * shape))    (* class: members (name, shape) in declaration order *)
-| SMap (ks : kshape) (e : shape)         (* std::map<K, e>, MapLoadMode::Clean *)
+| SMap (m : mmode) (ks : kshape) (e : shape)   (* std::map<K, e> loaded in mode m *)
 | SArr (n : nat) (e : shape)             (* std::array<e, n>, e[n] *)
 | SVecBool                               (* std::vector<bool> *)
 | STuple (ss : list shape).              (* std::tuple<ss...> *)
@@ -128,7 +136,7 @@ Fixpoint has_shape (v : tv) (s : shape) {struct v} : bool :=
          match k with TStr kb => bytes_eqb kb name | _ => false end && has_shape x s' && all t ms'
        | _, _ => false
        end) kvs ms
-  | TObj kvs, SMap ks e =>
+  | TObj kvs, SMap _ ks e =>
     (fix all (l : list (tv * tv)) : bool :=
        match l with [] => true | (k, x) :: t => key_has k ks && has_shape x e && all t end) kvs && pairs_sorted kvs
   | TArr l, SArr n e =>
@@ -175,26 +183,41 @@ Fixpoint default_of (s : shape) : tv :=
   | SVec _ => TArr []
   | SClass ms => TObj ((fix go (ms : list (list N * shape)) : list (tv * tv) :=
                           match ms with [] => [] | (k, s') :: t => (TStr k, default_of s') :: go t end) ms)
-  | SMap _ _ => TObj []
+  | SMap _ _ _ => TObj []
   | SArr n e => TArr (repeat (default_of e) n)
   | SVecBool => TArr []
   | STuple ss => TArr ((fix go (ss : list shape) : list tv := match ss with [] => [] | s' :: t => default_of s' :: go t end) ss)
   end.
 
-(* ---------- std::map: insertion, key conversion ---------- *)
-(* try_emplace: an equivalent key already present keeps its place (and, here, its value: the load into a
-   present element is outside `modelled`) *)
+(* ---------- std::map: lookup, insertion, key conversion ---------- *)
+(* equivalence under std::less *)
+Definition tkey_eqb (a b : tv) : bool := negb (tkey_ltb a b) && negb (tkey_ltb b a).
+
+Fixpoint map_find (k : tv) (l : list (tv * tv)) : option tv :=
+  match l with
+  | [] => None
+  | (k', x') :: t => if tkey_eqb k k' then Some x' else map_find k t
+  end.
+
+(* the mapped value under k becomes x: an equivalent key already present keeps its place (and its key object),
+   a new key is inserted before the first greater one *)
+Fixpoint map_replace (k x : tv) (l : list (tv * tv)) : list (tv * tv) :=
+  match l with
+  | [] => []
+  | (k', x') :: t => if tkey_eqb k k' then (k', x) :: t else (k', x') :: map_replace k x t
+  end.
+
 Fixpoint map_insert (k x : tv) (l : list (tv * tv)) : list (tv * tv) :=
   match l with
   | [] => [(k, x)]
-  | (k', x') :: t =>
-    if tkey_ltb k k' then (k, x) :: l
-    else if tkey_ltb k' k then (k', x') :: map_insert k x t
-    else l
+  | (k', x') :: t => if tkey_ltb k k' then (k, x) :: l else (k', x') :: map_insert k x t
   end.
 
-Definition map_of (es : list (tv * tv)) : list (tv * tv) :=
-  fold_right (fun e acc => map_insert (fst e) (snd e) acc) [] es.
+Definition map_put (k x : tv) (l : list (tv * tv)) : list (tv * tv) :=
+  match map_find k l with Some _ => map_replace k x l | None => map_insert k x l end.
+
+Definition map_apply (m : list (tv * tv)) (es : list (tv * tv)) : list (tv * tv) :=
+  fold_left (fun acc e => map_put (fst e) (snd e) acc) es m.
 
 (* ConvertByPolicy(archive key, K): the key / passed over / exception *)
 Inductive ckey := CKey (k : tv) | CSkip | CErr (e : serr).
@@ -244,7 +267,7 @@ Fixpoint modelled (s : shape) (v : mpv) {struct s} : bool :=
          end) ms
     | _ => true
     end
-  | SMap ks e =>
+  | SMap _ ks e =>
     match v with
     | MMap kvs => forallb (fun kv => key_class_ok ks (fst kv) && modelled e (snd kv)) kvs && keys_distinct (keys_list kvs)
     | _ => true
@@ -267,7 +290,13 @@ Definition of_value (s : shape) (x : value) : tv :=
 (* Serialize(...) returned true with the loaded value / returned false (target untouched) / threw *)
 Inductive lres := LOk (v : tv) | LNot | LErr (e : serr).
 
+(* what a sequence container holds after the load of an element (reset when not loaded) / what any other target holds *)
 Definition fill (s : shape) (r : lres) : tv := match r with LOk v => v | _ => default_of s end.
+Definition keep (i : tv) (r : lres) : tv := match r with LOk v => v | _ => i end.
+
+(* the parts of a target's content *)
+Definition arr_items (i : tv) : list tv := match i with TArr l => l | _ => [] end.
+Definition obj_fields (i : tv) : list (tv * tv) := match i with TObj l => l | _ => [] end.
 
 Definition byte_of (v : tv) : N := match v with TInt _ z => Z.to_N z | _ => 0 end.
 
@@ -290,17 +319,20 @@ Section Load.
     | TErr e => ([], LErr (SE e))
     end.
 
-  (* SerializeContainer over the elements: IsEnd() before each, the element load, stop at an exception *)
+  (* the elements of an array scope against the elements the target has (inits; beyond them: value-initialised):
+     IsEnd() before each, the element load, stop at an exception.  after : content before, result -> content after *)
   Section Elements.
     Variable e : shape.
-    Variable load_e : mpv -> list tok * lres.
-    Fixpoint elems_tr (vs : list mpv) : list tok * list tv * option serr :=
+    Variable load_e : tv -> mpv -> list tok * lres.
+    Variable after : tv -> lres -> tv.
+    Fixpoint elems_tr (inits : list tv) (vs : list mpv) : list tok * list tv * option serr :=
       match vs with
       | [] => ([KIsEnd true], [], None)
       | v :: vs' =>
-        match load_e v with
+        let i0 := hd (default_of e) inits in
+        match load_e i0 v with
         | (t, LErr err) => (KIsEnd false :: t, [], Some err)
-        | (t, r) => match elems_tr vs' with (t', items, err) => (KIsEnd false :: t ++ t', fill e r :: items, err) end
+        | (t, r) => match elems_tr (tl inits) vs' with (t', items, err) => (KIsEnd false :: t ++ t', after i0 r :: items, err) end
         end
       end.
   End Elements.
@@ -321,10 +353,11 @@ Section Load.
       end.
   End Bools.
 
-  Definition vec_tr (e : shape) (load_e : mpv -> list tok * lres) (mk : list tv -> tv) (v : mpv) : list tok * lres :=
+  (* SerializeContainer: the container is resized to the count, an element that is not loaded is reset *)
+  Definition vec_tr (e : shape) (load_e : tv -> mpv -> list tok * lres) (mk : list tv -> tv) (inits : list tv) (v : mpv) : list tok * lres :=
     match v with
     | MArr vs =>
-      match elems_tr e load_e vs with
+      match elems_tr e load_e (fun _ r => fill e r) inits vs with
       | (t, items, None) => (KOpen :: t ++ [KClose], LOk (mk items))
       | (t, _, Some err) => (KOpen :: t, LErr err)
       end
@@ -332,14 +365,18 @@ Section Load.
     end.
 
   Definition absent_toks (s : shape) : list tok :=
-    match s with SVec _ | SClass _ | SMap _ _ | SArr _ _ | SVecBool | STuple _ => [KNone] | SBytes => [KNone; KNone] | _ => [KFalse] end.
+    match s with SVec _ | SClass _ | SMap _ _ _ | SArr _ _ | SVecBool | STuple _ => [KNone] | SBytes => [KNone; KNone] | _ => [KFalse] end.
 
-  (* SerializeMapImpl over the members of the document, in document order: key conversion, then the load of the
-     mapped value under the archive key (which finds the member just visited); stop at an exception *)
+  (* SerializeMapImpl over the members of the document, in document order: key conversion, then (unless the mode is
+     OnlyExistKeys and the map m0 has no such key) the load of the mapped value under the archive key (which finds the
+     member just visited) into the element of m0 under that key, or into a value-initialised one; stop at an
+     exception.  The updates (key, new mapped value) in document order *)
   Section Entries.
+    Variable only : bool.
     Variable ks : kshape.
     Variable e : shape.
-    Variable load_e : mpv -> list tok * lres.
+    Variable load_e : tv -> mpv -> list tok * lres.
+    Variable m0 : list (tv * tv).
     Fixpoint entries_tr (kvs : list (mpv * mpv)) : list tok * list (tv * tv) * option serr :=
       match kvs with
       | [] => ([], [], None)
@@ -351,37 +388,51 @@ Section Load.
           | CErr err => ([], [], Some err)
           | CSkip => entries_tr kvs'
           | CKey key =>
-            match load_e x with
-            | (t, LErr err) => (t, [], Some err)
-            | (t, r) => match entries_tr kvs' with (t', es, err) => (t ++ t', (key, fill e r) :: es, err) end
+            match map_find key m0, only with
+            | None, true => entries_tr kvs'        (* OnlyExistKeys: no such element *)
+            | found, _ =>
+              let i0 := match found with Some old => old | None => default_of e end in
+              match load_e i0 x with
+              | (t, LErr err) => (t, [], Some err)
+              | (t, r) => match entries_tr kvs' with (t', es, err) => (t ++ t', (key, keep i0 r) :: es, err) end
+              end
             end
           end
         end
       end.
   End Entries.
 
-  (* value.Serialize(scope): one keyed load per member, in declaration order; stop at an exception *)
+  (* value.Serialize(scope): one keyed load per member, in declaration order, each into the member's content
+     (inits: the fields the target has, in declaration order); stop at an exception *)
   Section Members.
-    Variable load : shape -> mpv -> list tok * lres.
+    Variable load : shape -> tv -> mpv -> list tok * lres.
     Variable kvs : list (mpv * mpv).
-    Fixpoint members_tr (ms : list (list N * shape)) : list tok * list (tv * tv) * option serr :=
+    Fixpoint members_tr (inits : list (tv * tv)) (ms : list (list N * shape)) : list tok * list (tv * tv) * option serr :=
       match ms with
       | [] => ([], [], None)
       | (name, s') :: ms' =>
+        let i0 := match inits with (_, x) :: _ => x | [] => default_of s' end in
         match (match lookup (KStr name) kvs with
-               | Some x => load s' x
+               | Some x => load s' i0 x
                | None => (absent_toks s', LNot)
                end) with
         | (t, LErr err) => (t, [], Some err)
-        | (t, r) => match members_tr ms' with (t', fields, err) => (t ++ t', (TStr name, fill s' r) :: fields, err) end
+        | (t, r) => match members_tr (tl inits) ms' with (t', fields, err) => (t ++ t', (TStr name, keep i0 r) :: fields, err) end
         end
       end.
   End Members.
 
+  (* the content of the components a tuple has (beyond it: value-initialised) *)
+  Fixpoint comp_inits (ss : list shape) (inits : list tv) : list tv :=
+    match ss with
+    | [] => []
+    | s' :: ss' => hd (default_of s') inits :: comp_inits ss' (tl inits)
+    end.
+
   (* SerializeArray(tuple): IsEnd() and a load per component while the array has elements; then the end check *)
   Section Comps.
-    Variable load : shape -> mpv -> list tok * lres.
-    Fixpoint comps_tr (ss : list shape) (vs : list mpv) : list tok * list tv * option serr :=
+    Variable load : shape -> tv -> mpv -> list tok * lres.
+    Fixpoint comps_tr (ss : list shape) (inits : list tv) (vs : list mpv) : list tok * list tv * option serr :=
       match ss with
       | [] =>
         match vs with
@@ -390,37 +441,40 @@ Section Load.
         end
       | s' :: ss' =>
         match vs with
-        | [] =>      (* the array is shorter than the tuple: IsEnd() once, then the end check *)
+        | [] =>      (* the array is shorter than the tuple: IsEnd() once, then the end check; the rest stays as it is *)
           match o_mismatch o with
           | PThrow => ([KIsEnd true], [], Some (SE EMismatch))
-          | PSkip => ([KIsEnd true; KIsEnd true], map default_of (s' :: ss'), None)
+          | PSkip => ([KIsEnd true; KIsEnd true], comp_inits (s' :: ss') inits, None)
           end
         | v :: vs' =>
-          match load s' v with
+          let i0 := hd (default_of s') inits in
+          match load s' i0 v with
           | (t, LErr err) => (KIsEnd false :: t, [], Some err)
-          | (t, r) => match comps_tr ss' vs' with (t', items, err) => (KIsEnd false :: t ++ t', fill s' r :: items, err) end
+          | (t, r) => match comps_tr ss' (tl inits) vs' with (t', items, err) => (KIsEnd false :: t ++ t', keep i0 r :: items, err) end
           end
         end
       end.
   End Comps.
 
-  (* answers consumed (as tokens) and loaded value, for a target of shape s at an array-element / root
+  Definition scalar_ld (s : shape) (t : target) (_ : tv) (v : mpv) : list tok * lres := scalar_tr s t v.
+
+  (* answers consumed (as tokens) and loaded value, for a target of shape s holding i at an array-element / root
      position holding the document value v *)
-  Fixpoint load_tr (s : shape) (v : mpv) {struct s} : list tok * lres :=
+  Fixpoint load_tr (s : shape) (i : tv) (v : mpv) {struct s} : list tok * lres :=
     match s with
-    | SVec e => vec_tr e (load_tr e) TArr v
+    | SVec e => vec_tr e (load_tr e) TArr (arr_items i) v
     | SBytes =>
       match v with
       | MBin bs => (KOpen :: map KByte bs ++ [KClose], LOk (TBytes bs))
       | _ =>   (* OpenBinaryScope declines, then the array scope with unsigned char elements *)
-        match vec_tr (SInt IU8) (scalar_tr (SInt IU8) (TgInt (mkIty false 8))) (fun items => TBytes (map byte_of items)) v with
+        match vec_tr (SInt IU8) (scalar_ld (SInt IU8) (TgInt (mkIty false 8))) (fun items => TBytes (map byte_of items)) [] v with
         | (t, r) => (KNone :: t, r)
         end
       end
     | SClass ms =>
       match v with
       | MMap kvs =>
-        match members_tr load_tr kvs ms with
+        match members_tr load_tr kvs (obj_fields i) ms with
         | (t, fields, None) => (KOpen :: t ++ [KClose], LOk (TObj fields))
         | (t, _, Some err) => (KOpen :: t, LErr err)
         end
@@ -429,8 +483,8 @@ Section Load.
     | SArr n e =>
       match v with
       | MArr vs =>
-        (* elements while both sides have one; then the count check *)
-        match elems_tr e (load_tr e) (firstn n vs) with
+        (* elements while both sides have one (an element that is not loaded keeps its content); then the count check *)
+        match elems_tr e (load_tr e) keep (arr_items i) (firstn n vs) with
         | (t, items, None) =>
           if Nat.eqb (length vs) n then (KOpen :: t ++ [KClose], LOk (TArr items))
           else (KOpen :: t, LErr SERange)
@@ -450,17 +504,18 @@ Section Load.
     | STuple ss =>
       match v with
       | MArr vs =>
-        match comps_tr load_tr ss vs with
+        match comps_tr load_tr ss (arr_items i) vs with
         | (t, items, None) => (KOpen :: t ++ [KClose], LOk (TArr items))
         | (t, _, Some err) => (KOpen :: t, LErr err)
         end
       | _ => no_container v
       end
-    | SMap ks e =>
+    | SMap m ks e =>
       match v with
       | MMap kvs =>
-        match entries_tr ks e (load_tr e) kvs with
-        | (t, es, None) => (KOpen :: t ++ [KClose], LOk (TObj (map_of es)))
+        let m0 := match m with MClean => [] | _ => obj_fields i end in     (* Clean: cont.clear() *)
+        match entries_tr (match m with MOnlyExist => true | _ => false end) ks e (load_tr e) m0 kvs with
+        | (t, es, None) => (KOpen :: t ++ [KClose], LOk (TObj (map_apply m0 es)))
         | (t, _, Some err) => (KOpen :: t, LErr err)
         end
       | _ => no_container v
@@ -468,35 +523,51 @@ Section Load.
     | _ => match target_of s with Some t => scalar_tr s t v | None => ([], LNot) end
     end.
 
-  (* LoadObject into a value-initialised target of shape s from a document holding the value v *)
-  Definition load_spec (s : shape) (v : mpv) : lres := snd (load_tr s v).
-  Definition load_toks (s : shape) (v : mpv) : list tok := fst (load_tr s v).
+  (* LoadObject into a target of shape s holding i from a document holding the value v *)
+  Definition load_spec (s : shape) (i : tv) (v : mpv) : lres := snd (load_tr s i v).
+  Definition load_toks (s : shape) (i : tv) (v : mpv) : list tok := fst (load_tr s i v).
 End Load.
 
 (* ---------- the request programs the generic layer issues ---------- *)
 Fixpoint mk_areqs (l : list areq) : areqs := match l with [] => ANil | a :: t => ACons a (mk_areqs t) end.
 Fixpoint mk_reqs (l : list req) : reqs := match l with [] => RNil | r :: t => RCons r (mk_reqs t) end.
 
-(* the loop of SerializeContainer on a document array vs: IsEnd, element, ..., IsEnd *)
-Definition vec_body (prog_e : mpv -> list areq) (vs : list mpv) : list areq :=
-  flat_map (fun v => AEnd :: prog_e v) vs ++ [AEnd].
+(* the loop of an array scope on a document array vs: IsEnd, element, ..., IsEnd; the elements are loaded into the
+   contents inits (beyond them: d) *)
+Fixpoint vec_body (prog_e : tv -> mpv -> list areq) (d : tv) (inits : list tv) (vs : list mpv) : list areq :=
+  match vs with
+  | [] => [AEnd]
+  | v :: vs' => AEnd :: prog_e (hd d inits) v ++ vec_body prog_e d (tl inits) vs'
+  end.
 
-Definition arr_prog (prog_e : mpv -> list areq) (v : mpv) : areqs :=
-  match v with MArr vs => mk_areqs (vec_body prog_e vs) | _ => ANil end.
+Definition arr_prog (prog_e : tv -> mpv -> list areq) (d : tv) (inits : list tv) (v : mpv) : areqs :=
+  match v with MArr vs => mk_areqs (vec_body prog_e d inits vs) | _ => ANil end.
 
-Definition u8_prog (_ : mpv) : list areq := [AGet (TgInt (mkIty false 8))].
-Definition bool_prog (_ : mpv) : list areq := [AGet (TgInt (mkIty false 1))].
+Definition u8_prog (_ : tv) (_ : mpv) : list areq := [AGet (TgInt (mkIty false 8))].
+Definition bool_prog (_ : tv) (_ : mpv) : list areq := [AGet (TgInt (mkIty false 1))].
 
 Fixpoint mk_vacts (l : list vact) : vacts := match l with [] => VANil | a :: t => VACons a (mk_vacts t) end.
 
 (* the callback of SerializeMapImpl, one action per member of the document *)
 Section MapActs.
   Variable o : opts.
+  Variable only : bool.
   Variable ks : kshape.
-  Variable vprog : mpv -> vact.
+  Variable d : tv.                                (* a value-initialised mapped value *)
+  Variable vprog : tv -> mpv -> vact.
+  Variable m0 : list (tv * tv).
   Definition map_act (kv : mpv * mpv) : vact :=
     match keyden (fst kv) with
-    | Some kk => match conv_key o ks kk with CKey _ => vprog (snd kv) | CSkip => VSkip | CErr e => VThrow e end
+    | Some kk =>
+      match conv_key o ks kk with
+      | CKey key =>
+        match map_find key m0, only with
+        | None, true => VSkip
+        | found, _ => vprog (match found with Some old => old | None => d end) (snd kv)
+        end
+      | CSkip => VSkip
+      | CErr e => VThrow e
+      end
     | None => VSkip
     end.
   Fixpoint map_acts (kvs : list (mpv * mpv)) : list vact :=
@@ -506,103 +577,123 @@ End MapActs.
 (* the components of a tuple: IsEnd, component, ...; a shorter array: IsEnd (true), then the end check *)
 Section CompProgs.
   Variable o : opts.
-  Variable eprog : shape -> mpv -> list areq.
-  Fixpoint comps_prog (ss : list shape) (vs : list mpv) : list areq :=
+  Variable eprog : shape -> tv -> mpv -> list areq.
+  Fixpoint comps_prog (ss : list shape) (inits : list tv) (vs : list mpv) : list areq :=
     match ss with
     | [] =>
       AEnd :: (match vs, o_mismatch o with _ :: _, PThrow => [AThrow (SE EMismatch)] | _, _ => [] end)
     | s' :: ss' =>
       match vs with
       | [] => AEnd :: (match o_mismatch o with PThrow => [AThrow (SE EMismatch)] | PSkip => [AEnd] end)
-      | v :: vs' => AEnd :: eprog s' v ++ comps_prog ss' vs'
+      | v :: vs' => AEnd :: eprog s' (hd (default_of s') inits) v ++ comps_prog ss' (tl inits) vs'
       end
     end.
 End CompProgs.
 
 Section MemberProgs.
-  Variable mprog : shape -> qkey -> option mpv -> list req.
+  Variable mprog : shape -> tv -> qkey -> option mpv -> list req.
   Variable kvs : list (mpv * mpv).
-  Fixpoint members_prog (ms : list (list N * shape)) : list req :=
+  Fixpoint members_prog (inits : list (tv * tv)) (ms : list (list N * shape)) : list req :=
     match ms with
     | [] => []
-    | (name, s') :: ms' => mprog s' (QStr name) (lookup (KStr name) kvs) ++ members_prog ms'
+    | (name, s') :: ms' =>
+      mprog s' (match inits with (_, x) :: _ => x | [] => default_of s' end) (QStr name) (lookup (KStr name) kvs)
+        ++ members_prog (tl inits) ms'
     end.
 End MemberProgs.
 
-(* the program is a function of the shape, of the document and (for the keys of a std::map that do not fit) of
-   the policies: the layer is adaptive only in looping while !IsEnd(), in not entering a child scope that was
-   not opened, in the binary -> array fallback and in the key conversion *)
+Definition map_m0 (m : mmode) (i : tv) : list (tv * tv) := match m with MClean => [] | _ => obj_fields i end.
+Definition map_only (m : mmode) : bool := match m with MOnlyExist => true | _ => false end.
+
+(* the program is a function of the shape, of the document, of the content of the target (which keys a map loaded
+   with OnlyExistKeys has) and (for the keys of a std::map that do not fit) of the policies: the layer is adaptive only
+   in looping while !IsEnd(), in not entering a child scope that was not opened, in the binary -> array fallback, in the
+   key conversion and in find(key) *)
 Section Progs.
   Variable o : opts.
 
-  Fixpoint elem_prog (s : shape) (v : mpv) {struct s} : list areq :=
+  Fixpoint elem_prog (s : shape) (i : tv) (v : mpv) {struct s} : list areq :=
     match s with
-    | SVec e | SArr _ e => [AArr (arr_prog (elem_prog e) v)]
-    | SVecBool => [AArr (arr_prog bool_prog v)]
-    | STuple ss => [AArr (match v with MArr vs => mk_areqs (comps_prog o elem_prog ss vs) | _ => ANil end)]
+    | SVec e | SArr _ e => [AArr (arr_prog (elem_prog e) (default_of e) (arr_items i) v)]
+    | SVecBool => [AArr (arr_prog bool_prog (TBool false) [] v)]
+    | STuple ss => [AArr (match v with MArr vs => mk_areqs (comps_prog o elem_prog ss (arr_items i) vs) | _ => ANil end)]
     | SBytes => match v with
                 | MBin bs => [ABin (length bs)]
-                | _ => [ABin 0; AArr (arr_prog u8_prog v)]
+                | _ => [ABin 0; AArr (arr_prog u8_prog (TInt IU8 0) [] v)]
                 end
-    | SClass ms => [AObj (match v with MMap kvs => mk_reqs (members_prog member_prog kvs ms) | _ => RNil end)]
-    | SMap ks e => [AObj (match v with MMap kvs => mk_reqs [REach (mk_vacts (map_acts o ks (vact_prog e) kvs))] | _ => RNil end)]
+    | SClass ms => [AObj (match v with MMap kvs => mk_reqs (members_prog member_prog kvs (obj_fields i) ms) | _ => RNil end)]
+    | SMap m ks e =>
+      [AObj (match v with
+             | MMap kvs => mk_reqs [REach (mk_vacts (map_acts o (map_only m) ks (default_of e) (vact_prog e) (map_m0 m i) kvs))]
+             | _ => RNil
+             end)]
     | _ => match target_of s with Some t => [AGet t] | None => [] end
     end
-  with member_prog (s : shape) (q : qkey) (ov : option mpv) {struct s} : list req :=
+  with member_prog (s : shape) (i : tv) (q : qkey) (ov : option mpv) {struct s} : list req :=
     match s with
-    | SVec e | SArr _ e => [RArr q (match ov with Some v => arr_prog (elem_prog e) v | None => ANil end)]
-    | SVecBool => [RArr q (match ov with Some v => arr_prog bool_prog v | None => ANil end)]
-    | STuple ss => [RArr q (match ov with Some (MArr vs) => mk_areqs (comps_prog o elem_prog ss vs) | _ => ANil end)]
+    | SVec e | SArr _ e => [RArr q (match ov with Some v => arr_prog (elem_prog e) (default_of e) (arr_items i) v | None => ANil end)]
+    | SVecBool => [RArr q (match ov with Some v => arr_prog bool_prog (TBool false) [] v | None => ANil end)]
+    | STuple ss => [RArr q (match ov with Some (MArr vs) => mk_areqs (comps_prog o elem_prog ss (arr_items i) vs) | _ => ANil end)]
     | SBytes => match ov with
                 | Some (MBin bs) => [RBin q (length bs)]
-                | Some v => [RBin q 0; RArr q (arr_prog u8_prog v)]
+                | Some v => [RBin q 0; RArr q (arr_prog u8_prog (TInt IU8 0) [] v)]
                 | None => [RBin q 0; RArr q ANil]
                 end
-    | SClass ms => [RObj q (match ov with Some (MMap kvs) => mk_reqs (members_prog member_prog kvs ms) | _ => RNil end)]
-    | SMap ks e => [RObj q (match ov with Some (MMap kvs) => mk_reqs [REach (mk_vacts (map_acts o ks (vact_prog e) kvs))] | _ => RNil end)]
+    | SClass ms => [RObj q (match ov with Some (MMap kvs) => mk_reqs (members_prog member_prog kvs (obj_fields i) ms) | _ => RNil end)]
+    | SMap m ks e =>
+      [RObj q (match ov with
+               | Some (MMap kvs) => mk_reqs [REach (mk_vacts (map_acts o (map_only m) ks (default_of e) (vact_prog e) (map_m0 m i) kvs))]
+               | _ => RNil
+               end)]
     | _ => match target_of s with Some t => [RGet q t] | None => [] end
     end
   (* the keyed load of a mapped value from inside the VisitKeys callback, under the visited key *)
-  with vact_prog (s : shape) (v : mpv) {struct s} : vact :=
+  with vact_prog (s : shape) (i : tv) (v : mpv) {struct s} : vact :=
     match s with
-    | SVec e | SArr _ e => VArr (arr_prog (elem_prog e) v)
-    | SVecBool => VArr (arr_prog bool_prog v)
-    | STuple ss => VArr (match v with MArr vs => mk_areqs (comps_prog o elem_prog ss vs) | _ => ANil end)
+    | SVec e | SArr _ e => VArr (arr_prog (elem_prog e) (default_of e) (arr_items i) v)
+    | SVecBool => VArr (arr_prog bool_prog (TBool false) [] v)
+    | STuple ss => VArr (match v with MArr vs => mk_areqs (comps_prog o elem_prog ss (arr_items i) vs) | _ => ANil end)
     | SBytes => match v with
                 | MBin bs => VBin (length bs)
-                | _ => VBinArr 0 (arr_prog u8_prog v)
+                | _ => VBinArr 0 (arr_prog u8_prog (TInt IU8 0) [] v)
                 end
-    | SClass ms => VObj (match v with MMap kvs => mk_reqs (members_prog member_prog kvs ms) | _ => RNil end)
-    | SMap ks e => VObj (match v with MMap kvs => mk_reqs [REach (mk_vacts (map_acts o ks (vact_prog e) kvs))] | _ => RNil end)
+    | SClass ms => VObj (match v with MMap kvs => mk_reqs (members_prog member_prog kvs (obj_fields i) ms) | _ => RNil end)
+    | SMap m ks e =>
+      VObj (match v with
+            | MMap kvs => mk_reqs [REach (mk_vacts (map_acts o (map_only m) ks (default_of e) (vact_prog e) (map_m0 m i) kvs))]
+            | _ => RNil
+            end)
     | _ => match target_of s with Some t => VGet t | None => VSkip end
     end.
 
   (* the history on the root scope: a class / a map at the root opens the root object scope itself *)
-  Definition class_prog (ms : list (list N * shape)) (kvs : list (mpv * mpv)) : reqs :=
-    mk_reqs (members_prog member_prog kvs ms).
+  Definition class_prog (ms : list (list N * shape)) (i : tv) (kvs : list (mpv * mpv)) : reqs :=
+    mk_reqs (members_prog member_prog kvs (obj_fields i) ms).
 
-  Definition map_prog (ks : kshape) (e : shape) (kvs : list (mpv * mpv)) : reqs :=
-    mk_reqs [REach (mk_vacts (map_acts o ks (vact_prog e) kvs))].
+  Definition map_prog (m : mmode) (ks : kshape) (e : shape) (i : tv) (kvs : list (mpv * mpv)) : reqs :=
+    mk_reqs [REach (mk_vacts (map_acts o (map_only m) ks (default_of e) (vact_prog e) (map_m0 m i) kvs))].
 
-  Definition vec_prog (e : shape) (vs : list mpv) : areqs := mk_areqs (vec_body (elem_prog e) vs).
-  Definition tuple_prog (ss : list shape) (vs : list mpv) : areqs := mk_areqs (comps_prog o elem_prog ss vs).
+  Definition vec_prog (e : shape) (i : tv) (vs : list mpv) : areqs := mk_areqs (vec_body (elem_prog e) (default_of e) (arr_items i) vs).
+  Definition tuple_prog (ss : list shape) (i : tv) (vs : list mpv) : areqs := mk_areqs (comps_prog o elem_prog ss (arr_items i) vs).
 End Progs.
 
 (* ---------- reading the loaded value off the scopes' answers alone ---------- *)
 (* the generic layer sees nothing of the document but these tokens (true/false + value, scope opened or not,
-   IsEnd, the bytes); read_off is what it builds from them for a value-initialised target of shape s *)
+   IsEnd, the bytes); read_off is what it builds from them in a target of shape s that holds i *)
 Section ReadElems.
   Variable e : shape.
-  Variable rd : list tok -> option (lres * list tok).
-  Fixpoint read_elems (fuel : nat) (t : list tok) : option (list tv * list tok) :=
+  Variable rd : tv -> list tok -> option (lres * list tok).
+  Variable after : tv -> lres -> tv.
+  Fixpoint read_elems (fuel : nat) (inits : list tv) (t : list tok) : option (list tv * list tok) :=
     match fuel with
     | O => None
     | S f =>
       match t with
       | KIsEnd true :: KClose :: t' => Some ([], t')
       | KIsEnd false :: t' =>
-        match rd t' with
-        | Some (r, t'') => match read_elems f t'' with Some (items, t3) => Some (fill e r :: items, t3) | None => None end
+        let i0 := hd (default_of e) inits in
+        match rd i0 t' with
+        | Some (r, t'') => match read_elems f (tl inits) t'' with Some (items, t3) => Some (after i0 r :: items, t3) | None => None end
         | None => None
         end
       | _ => None
@@ -633,7 +724,7 @@ Fixpoint read_bytes (t : list tok) : option (list N * list tok) :=
   | _ => None
   end.
 
-Definition read_scalar (s : shape) (t : list tok) : option (lres * list tok) :=
+Definition read_scalar (s : shape) (_ : tv) (t : list tok) : option (lres * list tok) :=
   match t with
   | KVal x :: t' => Some (LOk (of_value s x), t')
   | KFalse :: t' => Some (LNot, t')
@@ -641,29 +732,31 @@ Definition read_scalar (s : shape) (t : list tok) : option (lres * list tok) :=
   end.
 
 Section ReadMembers.
-  Variable rd : shape -> list tok -> option (lres * list tok).
-  Fixpoint read_members (ms : list (list N * shape)) (t : list tok) : option (list (tv * tv) * list tok) :=
+  Variable rd : shape -> tv -> list tok -> option (lres * list tok).
+  Fixpoint read_members (inits : list (tv * tv)) (ms : list (list N * shape)) (t : list tok) : option (list (tv * tv) * list tok) :=
     match ms with
     | [] => Some ([], t)
     | (name, s') :: ms' =>
-      match rd s' t with
-      | Some (r, t') => match read_members ms' t' with Some (fields, t'') => Some ((TStr name, fill s' r) :: fields, t'') | None => None end
+      let i0 := match inits with (_, x) :: _ => x | [] => default_of s' end in
+      match rd s' i0 t with
+      | Some (r, t') => match read_members (tl inits) ms' t' with Some (fields, t'') => Some ((TStr name, keep i0 r) :: fields, t'') | None => None end
       | None => None
       end
     end.
 End ReadMembers.
 
 Section ReadComps.
-  Variable rd : shape -> list tok -> option (lres * list tok).
-  Fixpoint read_comps (ss : list shape) (t : list tok) : option (list tv * list tok) :=
+  Variable rd : shape -> tv -> list tok -> option (lres * list tok).
+  Fixpoint read_comps (ss : list shape) (inits : list tv) (t : list tok) : option (list tv * list tok) :=
     match ss with
     | [] => match t with KIsEnd _ :: KClose :: t' => Some ([], t') | _ => None end
     | s' :: ss' =>
       match t with
-      | KIsEnd true :: KIsEnd true :: KClose :: t' => Some (map default_of (s' :: ss'), t')
+      | KIsEnd true :: KIsEnd true :: KClose :: t' => Some (comp_inits (s' :: ss') inits, t')
       | KIsEnd false :: t1 =>
-        match rd s' t1 with
-        | Some (r, t') => match read_comps ss' t' with Some (items, t'') => Some (fill s' r :: items, t'') | None => None end
+        let i0 := hd (default_of s') inits in
+        match rd s' i0 t1 with
+        | Some (r, t') => match read_comps ss' (tl inits) t' with Some (items, t'') => Some (keep i0 r :: items, t'') | None => None end
         | None => None
         end
       | _ => None
@@ -671,12 +764,12 @@ Section ReadComps.
     end.
 End ReadComps.
 
-Fixpoint read_off (s : shape) (t : list tok) {struct s} : option (lres * list tok) :=
+Fixpoint read_off (s : shape) (i : tv) (t : list tok) {struct s} : option (lres * list tok) :=
   match s with
   | STuple ss =>
     match t with
     | KNone :: t' => Some (LNot, t')
-    | KOpen :: t' => match read_comps read_off ss t' with Some (items, t'') => Some (LOk (TArr items), t'') | None => None end
+    | KOpen :: t' => match read_comps read_off ss (arr_items i) t' with Some (items, t'') => Some (LOk (TArr items), t'') | None => None end
     | _ => None
     end
   | SVecBool =>
@@ -685,10 +778,24 @@ Fixpoint read_off (s : shape) (t : list tok) {struct s} : option (lres * list to
     | KOpen :: t' => match read_bools false (length t') t' with Some (items, t'') => Some (LOk (TArr items), t'') | None => None end
     | _ => None
     end
-  | SVec e | SArr _ e =>
+  | SVec e =>
     match t with
     | KNone :: t' => Some (LNot, t')
-    | KOpen :: t' => match read_elems e (read_off e) (length t') t' with Some (items, t'') => Some (LOk (TArr items), t'') | None => None end
+    | KOpen :: t' =>
+      match read_elems e (read_off e) (fun _ r => fill e r) (length t') (arr_items i) t' with
+      | Some (items, t'') => Some (LOk (TArr items), t'')
+      | None => None
+      end
+    | _ => None
+    end
+  | SArr _ e =>
+    match t with
+    | KNone :: t' => Some (LNot, t')
+    | KOpen :: t' =>
+      match read_elems e (read_off e) keep (length t') (arr_items i) t' with
+      | Some (items, t'') => Some (LOk (TArr items), t'')
+      | None => None
+      end
     | _ => None
     end
   | SBytes =>
@@ -696,7 +803,7 @@ Fixpoint read_off (s : shape) (t : list tok) {struct s} : option (lres * list to
     | KOpen :: t' => match read_bytes t' with Some (bs, t'') => Some (LOk (TBytes bs), t'') | None => None end
     | KNone :: KNone :: t' => Some (LNot, t')
     | KNone :: KOpen :: t' =>
-      match read_elems (SInt IU8) (read_scalar (SInt IU8)) (length t') t' with
+      match read_elems (SInt IU8) (read_scalar (SInt IU8)) (fun _ r => fill (SInt IU8) r) (length t') [] t' with
       | Some (items, t'') => Some (LOk (TBytes (map byte_of items)), t'')
       | None => None
       end
@@ -706,14 +813,14 @@ Fixpoint read_off (s : shape) (t : list tok) {struct s} : option (lres * list to
     match t with
     | KNone :: t' => Some (LNot, t')
     | KOpen :: t' =>
-      match read_members read_off ms t' with
+      match read_members read_off (obj_fields i) ms t' with
       | Some (fields, KClose :: t'') => Some (LOk (TObj fields), t'')
       | _ => None
       end
     | _ => None
     end
-  | SMap _ _ => None    (* the keys are not among the tokens: see map_free *)
-  | _ => read_scalar s t
+  | SMap _ _ _ => None    (* the keys are not among the tokens: see map_free *)
+  | _ => read_scalar s i t
   end.
 
 (* shapes without std::map *)
@@ -721,14 +828,39 @@ Fixpoint map_free (s : shape) : bool :=
   match s with
   | SVec e | SArr _ e => map_free e
   | SClass ms => (fix go (ms : list (list N * shape)) : bool := match ms with [] => true | (_, s') :: t => map_free s' && go t end) ms
-  | SMap _ _ => false
+  | SMap _ _ _ => false
   | STuple ss => (fix go (ss : list shape) : bool := match ss with [] => true | s' :: t => map_free s' && go t end) ss
   | _ => true
   end.
 
-(* LoadObject from bytes, association-list level: the reference decoder, then the typed load *)
-Definition load_bytes (narrow : N -> option N) (widen : N -> N) (o : opts) (s : shape) (b : list N) : lres :=
+(* every std::map of the shape is loaded with MapLoadMode::Clean *)
+Fixpoint clean_maps (s : shape) : bool :=
+  match s with
+  | SVec e | SArr _ e => clean_maps e
+  | SClass ms => (fix go (ms : list (list N * shape)) : bool := match ms with [] => true | (_, s') :: t => clean_maps s' && go t end) ms
+  | STuple ss => (fix go (ss : list shape) : bool := match ss with [] => true | s' :: t => clean_maps s' && go t end) ss
+  | SMap m _ e => (match m with MClean => true | _ => false end) && clean_maps e
+  | _ => true
+  end.
+
+(* targets that keep nothing of their content when they are loaded: values, strings, byte containers, sequence
+   containers and maps loaded with Clean of such (a class keeps the members that are not loaded, a fixed-size array
+   and a tuple the elements that are not loaded: known finding F36, by design) *)
+Fixpoint overwritten (s : shape) : bool :=
+  match s with
+  | SVec e => overwritten e
+  | SMap MClean _ e => overwritten e
+  | SClass _ | SArr _ _ | STuple _ | SMap _ _ _ => false
+  | _ => true
+  end.
+
+(* LoadObject from bytes, association-list level: the reference decoder, then the typed load into a target holding i *)
+Definition load_bytes_into (narrow : N -> option N) (widen : N -> N) (o : opts) (s : shape) (i : tv) (b : list N) : lres :=
   match decode b with
-  | Some (d, _) => load_spec narrow widen o s d
+  | Some (d, _) => load_spec narrow widen o s i d
   | None => LErr (SE EParse)
   end.
+
+(* ... into a value-initialised target *)
+Definition load_bytes (narrow : N -> option N) (widen : N -> N) (o : opts) (s : shape) (b : list N) : lres :=
+  load_bytes_into narrow widen o s (default_of s) b.
